@@ -751,21 +751,23 @@ def check_parser_validations(ctx, prog):
         "construction layers": ("get_mut", "layers"), "wall construction": ("contains_key", "wallcons"),
     }
     n = 0
+    missing_ = []
     for label, (meth, coll) in wanted.items():
         key = "c02.parser|%s" % label
         hit = None
         for s2 in sc.all_scopes():
             for b, t in s2.body.calls():
                 nm = callee_name(t) or ""
-                if short_callee(nm) == meth and ("BTreeMap" in nm or "HashMap" in nm):
+                if short_callee(nm) in ("get", "get_mut", "remove", "contains_key", "get_key_value", "remove_entry") and ("BTreeMap" in nm or "HashMap" in nm):
                     recv = leaf_name(strip(s2.operand(t["args"][0]))) or ""
-                    if recv.split(".")[-1] == coll:
+                    raw = leaf_name(strip(s2.eb.operand(t["args"][0]))) or ""     # as named inside a helper (its parameter), before binding to the caller's value
+                    if recv.split(".")[-1] == coll or raw.split(".")[-1] == coll:
                         hit = (s2, b, t)
                         break
             if hit:
                 break
         if not hit:
-            ctx.violation("c02.parser", key, "validation lookup %s.%s(..) not found in Data::new" % (coll, meth), dn.loc())
+            missing_.append((key, coll, meth))
             continue
         s2, b, t = hit
         n += 1
@@ -804,7 +806,12 @@ def check_parser_validations(ctx, prog):
             ctx.ok("c02.parser", key, "a missing %s leads to an error return" % label, s2.fn.loc(t.get("ln")))
         else:
             ctx.violation("c02.parser", key, "the result of %s.%s(..) is %s: a broken %s reference is no longer rejected" % (coll, meth, kind, label), s2.fn.loc(t.get("ln")))
-    ctx.floor("c02.parser", "parser validations", n, 5)
+    # a validation that is absent while the others are found where expected is a finding; when most of them cannot be found the parser is written in a form
+    # this rule does not read (the floor below reports that as undecided)
+    if missing_ and n >= 3:
+        for key, coll, meth in missing_:
+            ctx.violation("c02.parser", key, "validation lookup %s.%s(..) not found in Data::new or the private functions it calls" % (coll, meth), dn.loc())
+    ctx.floor("c02.parser", "parser validations", n + (len(missing_) if missing_ and n >= 3 else 0), 5)
 
 
 def check_refgraph_complete(ctx, prog):
